@@ -49,11 +49,18 @@ IsSuffixOf(n, h) == Len(n) <= Len(h) /\ SubSeq(h, Len(h) - Len(n) + 1, Len(h)) =
 IsSubstr(n, h)   == \E i \in 0 .. (Len(h) - Len(n)) : SubSeq(h, i + 1, i + Len(n)) = n
 
 \* DOC(CLAUSES.md, "regex"): X == /re/ holds iff the regex matches somewhere in the string
+\* The regex fragment: an optional ^, a sequence of literal characters and wildcards, an optional $.
+\* The code point 0 in re.v stands for `.`: any one character.
+WILD == 0
+MatchAt(lit, s, off) == \A k \in 1 .. Len(lit) : lit[k] = WILD \/ lit[k] = s[off + k]
 RegexMatch(re, s) ==
-  IF re.s /\ re.e THEN s = re.v
-  ELSE IF re.s THEN IsPrefixOf(re.v, s)
-  ELSE IF re.e THEN IsSuffixOf(re.v, s)
-  ELSE IsSubstr(re.v, s)
+  LET n == Len(re.v)
+      m == Len(s) IN
+  IF n > m THEN FALSE
+  ELSE IF re.s /\ re.e THEN n = m /\ MatchAt(re.v, s, 0)
+  ELSE IF re.s THEN MatchAt(re.v, s, 0)
+  ELSE IF re.e THEN MatchAt(re.v, s, m - n)
+  ELSE \E off \in 0 .. (m - n) : MatchAt(re.v, s, off)
 
 ---------------------------------------------------------------------------
 (* numbers                                                                 *)
